@@ -157,15 +157,140 @@ func rootFunc(f *ssa.Function) *ssa.Function {
 	return f
 }
 
+// stdModels are the standard-library search helpers that refactorings substitute for hand-written
+// loops. Their (generic) bodies are inlined like same-package helpers, and a function literal passed
+// to them is inlined where the model calls it, so `slices.ContainsFunc(xs, func(x) bool { return P(x) })`
+// is analysed as the loop `for i := range xs { if P(xs[i]) { ... } }` it stands for.
+var stdModels = map[string]bool{
+	"slices.Contains":     true,
+	"slices.ContainsFunc": true,
+	"slices.Index":        true,
+	"slices.IndexFunc":    true,
+}
+
+func isStdModel(g *ssa.Function) bool {
+	if g == nil {
+		return false
+	}
+
+	if o := g.Origin(); o != nil {
+		g = o
+	}
+
+	return g.Pkg != nil && stdModels[g.Pkg.Pkg.Path()+"."+g.Name()]
+}
+
+func inStdModelBlock(b *ssa.BasicBlock) bool {
+	if !strings.HasPrefix(b.Comment, "inl:") {
+		return false
+	}
+
+	for m := range stdModels {
+		n := "inl:" + m[strings.LastIndex(m, ".")+1:]
+		if strings.HasPrefix(b.Comment, n+":") || strings.HasPrefix(b.Comment, n+"[") {
+			return true
+		}
+	}
+
+	return false
+}
+
+func stripChangeType(v ssa.Value) ssa.Value {
+	for {
+		ct, ok := v.(*ssa.ChangeType)
+		if !ok {
+			return v
+		}
+
+		v = ct.X
+	}
+}
+
+func closureValue(v ssa.Value) (*ssa.MakeClosure, bool) {
+	mc, ok := stripChangeType(v).(*ssa.MakeClosure)
+
+	return mc, ok
+}
+
+func simpleBody(body *ssa.Function) string {
+	if len(body.Blocks) > inlineMaxBlocks {
+		return "too large"
+	}
+
+	if body.Recover != nil {
+		return "recovers"
+	}
+
+	rets := 0
+
+	for _, b := range body.Blocks {
+		for _, in := range b.Instrs {
+			switch x := in.(type) {
+			case *ssa.Defer, *ssa.RunDefers:
+				return "defers"
+			case *ssa.Return:
+				rets++
+			case *ssa.Call:
+				// recover() only stops a panic when called directly by the deferred function:
+				// inlining a helper that calls it would change what the analysed code means
+				if b, ok := x.Call.Value.(*ssa.Builtin); ok && b.Name() == "recover" {
+					return "calls recover()"
+				}
+			}
+		}
+	}
+
+	if rets == 0 {
+		return "never returns"
+	}
+
+	return ""
+}
+
 // inlinable decides whether the static call `call` inside f is replaced by the callee's body.
 func (p *Program) inlinable(f *ssa.Function, call *ssa.Call) (*ssa.Function, string) {
 	if call.Call.IsInvoke() {
 		return nil, ""
 	}
 
-	g, ok := call.Call.Value.(*ssa.Function)
+	// a function literal handed to a standard-library model, called by the model
+	if mc, ok := closureValue(call.Call.Value); ok {
+		fn, _ := mc.Fn.(*ssa.Function)
+		if fn == nil || !inStdModelBlock(call.Block()) || len(fn.Blocks) == 0 || len(fn.Params) != len(call.Call.Args) || len(fn.FreeVars) != len(mc.Bindings) {
+			return nil, ""
+		}
+
+		if why := simpleBody(fn); why != "" {
+			return nil, FuncName(fn) + ": " + why
+		}
+
+		return fn, ""
+	}
+
+	g, ok := stripChangeType(call.Call.Value).(*ssa.Function)
 	if !ok || g.Parent() != nil {
+		if ok && inStdModelBlock(call.Block()) && len(g.Blocks) > 0 && len(g.FreeVars) == 0 && len(g.Params) == len(call.Call.Args) && simpleBody(g) == "" {
+			return g, "" // a capture-free function literal handed to a model
+		}
+
 		return nil, ""
+	}
+
+	if isStdModel(g) {
+		body := g
+		if len(body.Blocks) == 0 {
+			body = g.Origin()
+		}
+
+		if body == nil || len(body.Blocks) == 0 || len(body.Params) != len(call.Call.Args) {
+			return nil, ""
+		}
+
+		if why := simpleBody(body); why != "" {
+			return nil, FuncName(body) + ": " + why
+		}
+
+		return body, ""
 	}
 
 	body := bodyOf(g)
@@ -187,29 +312,8 @@ func (p *Program) inlinable(f *ssa.Function, call *ssa.Call) (*ssa.Function, str
 		return nil, ""
 	}
 
-	if len(body.Blocks) > inlineMaxBlocks {
-		return nil, name + ": too large"
-	}
-
-	if body.Recover != nil {
-		return nil, name + ": recovers"
-	}
-
-	rets := 0
-
-	for _, b := range body.Blocks {
-		for _, in := range b.Instrs {
-			switch in.(type) {
-			case *ssa.Defer, *ssa.RunDefers:
-				return nil, name + ": defers"
-			case *ssa.Return:
-				rets++
-			}
-		}
-	}
-
-	if rets == 0 {
-		return nil, name + ": never returns"
+	if why := simpleBody(body); why != "" {
+		return nil, name + ": " + why
 	}
 
 	if len(body.Params) != len(call.Call.Args) {
@@ -475,6 +579,12 @@ func (p *Program) inlineCall(f *ssa.Function, call *ssa.Call, body *ssa.Function
 
 	for i, prm := range body.Params {
 		vmap[prm] = call.Call.Args[i]
+	}
+
+	if mc, ok := closureValue(call.Call.Value); ok {
+		for i, fv := range body.FreeVars {
+			vmap[fv] = mc.Bindings[i]
+		}
 	}
 
 	bmap := map[*ssa.BasicBlock]*ssa.BasicBlock{}
